@@ -119,7 +119,7 @@ def parse_fn_block(lines, i, end_marker='end'):
             elif words[0] == 'r5-proof':
                 cur = []
                 blk.anchors.append(('r5-proof', '', 1, cur))
-            elif words[0] in ('before-result', 'at-end'):
+            elif words[0] in ('before-result', 'at-end', 'at-start'):
                 cur = []
                 blk.anchors.append((words[0], '', 1, cur))
             elif words[0] in ('before', 'after', 'after-block', 'before?', 'after?', 'after-block?'):
@@ -802,6 +802,11 @@ def annotate_fn(sf, item, blk, counts, meta, mode, qual_name, extra_ensures=None
                 soft_drift('%s: r5-proof without an R5 map expansion' % qual_name)
                 continue
             body = body.replace('/*@R5E@*/', '\n' + '\n'.join(lines) + '\n', 1)
+            counts.bump('R3')
+            continue
+        if where == 'at-start':
+            b0 = body.find('{')
+            body = body[:b0 + 1] + '\n' + '\n'.join(lines) + '\n' + body[b0 + 1:]
             counts.bump('R3')
             continue
         if where == 'at-end':
